@@ -1231,8 +1231,10 @@ impl FileReaderBuilder {
         let footer_len = read_footer_length(buffer)?;
 
         // read footer
-        let mut footer_data = vec![0; footer_len];
+        // Seek before allocating: seeking fails if the file is shorter than the footer length
+        // it declares, so a corrupt length cannot request an allocation unrelated to the input
         reader.seek(SeekFrom::End(-10 - footer_len as i64))?;
+        let mut footer_data = vec![0; footer_len];
         reader.read_exact(&mut footer_data)?;
 
         let verifier_options = VerifierOptions {
